@@ -211,3 +211,42 @@ def call(ctx, name, args, world=None, models=None, kwargs=None):
     it = Interp(ctx.a, xm, env, inline_pkg=True, world=world if world is not None else World(), call_models=cm)
     prog = 'return validate_args(__f)(*__args, **__kw)' if f.validated else 'return __f(*__args, **__kw)'
     return it.run(ast.parse(prog).body)
+
+
+# ------------------------------------------------------------------------------------------------------------
+# numpy on Python floats: IEEE semantics (a domain error is nan, an overflow inf) - trusted model of the library
+# ------------------------------------------------------------------------------------------------------------
+def numpy_models():
+    import math
+
+    def unary(fn, domain_nan=True):
+        def f(x, *rest, **kw):
+            if rest or kw or isinstance(x, bool) or not isinstance(x, (int, float)):
+                raise Unmodelled('numpy function on a non-float argument')
+            try:
+                return float(fn(x))
+            except ValueError:
+                return float('nan')
+            except OverflowError:
+                return float('inf')
+        return f
+    table = {'cos': math.cos, 'sin': math.sin, 'tan': math.tan, 'arccos': math.acos, 'arcsin': math.asin, 'arctan': math.atan,
+             'cosh': math.cosh, 'sinh': math.sinh, 'tanh': math.tanh, 'arccosh': math.acosh, 'arcsinh': math.asinh, 'arctanh': math.atanh,
+             'degrees': math.degrees, 'radians': math.radians, 'exp': math.exp, 'sqrt': math.sqrt, 'log': math.log, 'log10': math.log10,
+             'floor': math.floor, 'ceil': math.ceil, 'trunc': math.trunc, 'fabs': math.fabs,
+             'sign': lambda x: (x > 0) - (x < 0)}
+    out = {f'ext:numpy.{k}': unary(v) for k, v in table.items()}
+
+    def arctan2(a, b):
+        if any(isinstance(v, bool) or not isinstance(v, (int, float)) for v in (a, b)):
+            raise Unmodelled('numpy.arctan2 on non-float arguments')
+        return math.atan2(a, b)
+    out['ext:numpy.arctan2'] = arctan2
+
+    def power(interp, a, b):
+        if isinstance(a, Rec) or isinstance(b, Rec):
+            return interp._binop(ast.Pow(), a, b)      # object arrays: the class's own **
+        return a ** b
+    power.wants_interp = True
+    out['ext:numpy.power'] = power
+    return out
